@@ -155,7 +155,10 @@ def runMki (f : List String) (got : String) : MkResult :=
         some { kind := 'I', w := w, signer := op.signer, signed := signed,
                handedCov := (kv gt "cov").bind fun s => if s == "nil" then none else bytesOfHex s,
                sv := rec.sv, sigType := rec.sc.map (·.typ.toNat), hasParams := need,
-               expectText := some (if signed then txt else stripCov txt),
+               -- guard (NoTrailingDigest): without parameters the encoder drops ONE trailing digest
+               -- component; a name that still ends in one is rejected by the decoder by design
+               expectText := if !need ∧ (base.getLast?.map (·.typ)) == some 2 then none
+                             else some (if signed then txt else stripCov txt),
                nontrivial := bigElem op.name op.ap || (op.ap.getD []).length ≥ 2 ||
                  ([op.cbp, op.mbf, op.fh.isSome, op.nonce.isSome, op.lt.isSome, op.hl.isSome, op.ap.isSome, rec.sc.isSome].filter id).length ≥ 2 }
       | _, _ => none
